@@ -56,6 +56,7 @@ class Seq:
                         "source": label, "seed": ctx.seed, "what": "the harness process died while running the real code (panic on a library goroutine / fatal error); the model does not crash on this case",
                         "case": loc["header"] if loc else "(not localised)", "ops": loc["ops"] if loc else [], "first_bad_op": (len(loc["ops"]) - 1) if loc else None,
                         "real": ["process-crash"] * (len(loc["ops"]) if loc else 0), "crash_output": (loc["output"] if loc else hc.output[-2500:]), "signature": None}
+                if loc and loc.get("cases"): item["cases"] = loc["cases"]
                 out["f_bad" if self.crash_is_violation else "k_bad"].append(item)
                 continue
             out["evaluations"] += r.cases; out["ops"] += r.ops
@@ -113,11 +114,31 @@ class Seq:
         def print(*a):   # known-finding replays must not pollute stdout
             __builtins__["print"](*a, file=sys.stderr if quiet else sys.stdout) if isinstance(__builtins__, dict) else __import__("builtins").print(*a, file=sys.stderr if quiet else sys.stdout)
         seqdiff = go_build("seqdiff")
-        try:
-            k, f, real, ms = eval_case(self.suite, item["case"], item["ops"], self.pm, self.ps, seqdiff, os.path.join(ctx.workdir, "replay"))
-        except HarnessCrash as hc:
-            print("the harness process still dies on this case:", hc.output[-800:])
-            return {"k": 0, "f": 0 if self.crash_is_violation else None}
+        if item.get("cases"):
+            # a failure that needs several case histories in one process: run them again, in order
+            wd = os.path.join(ctx.workdir, "replay"); os.makedirs(wd, exist_ok=True)
+            cp = os.path.join(wd, "multi.cases")
+            with open(cp, "w") as fh:
+                for header, ops in item["cases"]:
+                    fh.write("case %s\n" % header)
+                    for o in ops: fh.write(o + "\n")
+                    fh.write("end\n")
+            for _ in range(5):
+                rc, outp = sh([seqdiff, "-suite", self.suite, "-replay", cp, "-out", os.path.join(wd, "multi")], env=GOENV, timeout=600)
+                if rc != 0: break
+            if rc != 0:
+                print("the harness process still dies on these %d cases run in one process:" % len(item["cases"]), outp[-800:])
+                return {"k": 0, "f": 0 if self.crash_is_violation else None}
+            print("the %d cases now run to the end" % len(item["cases"]))
+            return {"k": None, "f": None}
+        tries = 5 if "process-crash" in (item.get("real") or []) else 1   # a crash may depend on goroutine timing
+        for attempt in range(tries):
+            try:
+                k, f, real, ms = eval_case(self.suite, item["case"], item["ops"], self.pm, self.ps, seqdiff, os.path.join(ctx.workdir, "replay"))
+            except HarnessCrash as hc:
+                print("the harness process still dies on this case:", hc.output[-800:])
+                return {"k": 0, "f": 0 if self.crash_is_violation else None}
+            if k is not None or f is not None: break
         print("case", item["case"])
         for i, op in enumerate(item["ops"]):
             mark = " <== differs" if i in (k, f) else ""
